@@ -20,13 +20,20 @@ def to_snake_case(value: str) -> str:
     'v3_and_below'
     >>> to_snake_case("Type")
     'type_'
+    >>> to_snake_case("N")
+    'n'
     """
 
     groups = []
     current_group = ""
 
     for offset in count(0):
-        current = value[offset]
+        try:
+            current = value[offset]
+        except IndexError:
+            # Only reached for single-character names, longer names leave the loop
+            # through the look-ahead below.
+            break
 
         try:
             previous = current_group[-1]
